@@ -6,6 +6,7 @@ import (
 	"sort"
 	"strings"
 	"time"
+	"unicode/utf8"
 
 	"verifsim/model"
 	"verifsim/mqttc"
@@ -77,6 +78,7 @@ func genC17(rng *rand.Rand, tier string) *sim.Plan {
 	if tier == "thorough" {
 		rounds = 2 + rng.IntN(4)
 	}
+	binaryCorr := chance(rng, 0.08) // Correlation Data that is not UTF-8 (it is binary data) may occur in this run
 	sparse := chance(rng, 0.4) // few subscriptions: nodes without any matching subscription are likely
 	for r := 0; r < rounds; r++ {
 		var sp sim.Phase
@@ -119,6 +121,12 @@ func genC17(rng *rand.Rand, tier string) *sim.Plan {
 			for i := 0; i < rng.IntN(4); i++ {
 				msg++
 				op := sim.Op{K: "publish", C: nc[n].pub, Topic: pick(rng, c17topics), QoS: byte(rng.IntN(2)), Payload: fmt.Sprintf("p%d", msg)}
+				if p.Clients[nc[n].pub].Ver == 5 && chance(rng, 0.4) {
+					randMsgProps(rng, &op) // "exactly as a local subscriber would": the forwarded copy keeps its properties
+					if !binaryCorr && !utf8.Valid(op.Corr) {
+						op.Corr = []byte("c-" + op.Payload) // see the known finding: binary correlation data breaks the peer stream
+					}
+				}
 				if chance(rng, 0.2) && !retainedTopic[op.Topic] {
 					// at most one retained publish per topic and round (no cross-node write conflicts)
 					retainedTopic[op.Topic] = true
@@ -191,13 +199,17 @@ func oracleC17(p *sim.Plan, out *sim.Outcome) []sim.Violation {
 	}
 	// subscription state per client, replayed over the acknowledged operations in order
 	subs := map[int]map[string]bool{}
+	subQoS := map[int]map[string]byte{}
 	received := map[int]map[string]int{}
+	recvPkt := map[int]map[string]*mqttc.Packet{}
 	for _, r := range h.Recs {
 		if r.Kind == "rx" && r.Pkt.Type == mqttc.PUBLISH && !r.Pkt.Dup {
 			if received[r.C] == nil {
 				received[r.C] = map[string]int{}
+				recvPkt[r.C] = map[string]*mqttc.Packet{}
 			}
 			received[r.C][string(r.Pkt.Payload)+"|"+r.Pkt.Topic]++
+			recvPkt[r.C][string(r.Pkt.Payload)+"|"+r.Pkt.Topic] = r.Pkt
 		}
 	}
 	events := fedEvents(cl)
@@ -220,8 +232,13 @@ func oracleC17(p *sim.Plan, out *sim.Outcome) []sim.Violation {
 				}
 				if subs[o.Op.C] == nil {
 					subs[o.Op.C] = map[string]bool{}
+					subQoS[o.Op.C] = map[string]byte{}
 				}
 				subs[o.Op.C][s.Filter] = true
+				subQoS[o.Op.C][s.Filter] = s.QoS
+				if i < len(o.Ack.Codes) {
+					subQoS[o.Op.C][s.Filter] = o.Ack.Codes[i]
+				}
 			}
 		case "unsubscribe":
 			if o.Ack == nil {
@@ -293,6 +310,25 @@ func oracleC17(p *sim.Plan, out *sim.Outcome) []sim.Violation {
 				}
 				if match && got == 1 && remote {
 					out.Probes["fed_remote_deliveries"]++
+				}
+				if match && got == 1 {
+					// "exactly as a local subscriber would": QoS = min(published, highest matching granted), properties kept
+					pk := recvPkt[c][key]
+					var maxq byte
+					for f := range subs[c] {
+						if model.Match(f, topic) && subQoS[c][f] > maxq {
+							maxq = subQoS[c][f]
+						}
+					}
+					want := min(o.Op.QoS, maxq)
+					if pk.QoS != want {
+						vs = append(vs, viol("C17", "deliver", fmt.Sprintf("qos-%s", locality(remote)), "message %q on %q published at QoS %d on %s reached subscriber %s on %s (granted QoS %d) at QoS %d", payload, topic, o.Op.QoS, fedNode(origin), spec.ID, fedNode(nodeOf[c]), maxq, pk.QoS))
+					}
+					if spec.Ver == 5 {
+						if d := msgPropsMismatch(o.Op, p.Clients[o.Op.C].Ver == 5, pk); d != "" {
+							vs = append(vs, viol("C17", "deliver", fmt.Sprintf("properties-%s", locality(remote)), "message %q on %q published on %s reached subscriber %s on %s with %s", payload, topic, fedNode(origin), spec.ID, fedNode(nodeOf[c]), d))
+						}
+					}
 				}
 			}
 			// (2) a share group gets exactly one copy in the whole federation.  Next to the demand, the
@@ -465,6 +501,24 @@ func oracleC17(p *sim.Plan, out *sim.Outcome) []sim.Violation {
 					vs = append(vs, viol("C17", "retained", "not-stored-"+where, "the last retained message on %q is %q (published on %s), but the retained store of %s (%s) holds %q (present=%v)", t, want.payload, fedNode(want.node), fedNode(n), where, got, ok))
 				}
 			}
+		}
+	}
+	// Known finding (recorded, not repaired): the peer event carries Correlation Data in a protobuf string field, so
+	// a message whose correlation data is not valid UTF-8 cannot be marshalled; it stays at the head of the peer queue
+	// and the stream from that node is re-established and broken again for ever. From then on nothing the node emits
+	// reaches its peers. Runs in which such a message was published are judged under their own signatures.
+	for _, o := range h.Ops {
+		if o.Op.K == "publish" && o.Inv >= 0 && !utf8.Valid(o.Op.Corr) && p.Clients[o.Op.C].Ver == 5 {
+			out.Probes["fed_binary_correlation_data_published"]++
+			for i := range vs {
+				switch vs[i].Clause {
+				case "deliver", "forward", "retained", "shared":
+					if !strings.HasSuffix(vs[i].Sig, "@binary-correlation-data") {
+						vs[i].Sig += "@binary-correlation-data"
+					}
+				}
+			}
+			break
 		}
 	}
 	return vs
